@@ -1440,6 +1440,15 @@ class Interp:
             return self.mod.name
         if n.id == "__file__":
             return self.mod.path
+        e = env
+        while e is not None:
+            fn = e.get("__fnnode__")
+            if fn is not None:
+                # a local of the enclosing function (bound somewhere in its body) read on a path that never bound it
+                if any(isinstance(x, ast.Name) and x.id == n.id and isinstance(x.ctx, ast.Store) for x in ast.walk(fn)):
+                    raise PyRaise("UnboundLocalError", (self.mod.name, n.lineno, f"local variable '{n.id}' read before assignment"))
+                break
+            e = e.get("__parent__")
         raise Unsupported(f"name {n.id} in {self.mod.name}:{n.lineno}")
 
     def ev_NamedExpr(self, n, env):
@@ -2560,11 +2569,10 @@ class Interp:
             if cls.dunder("__post_init__")[1] is not None:
                 self.call_dunder(o, "__post_init__", [])
             return o
+        if any("Exception" in e or "Error" in e for e in cls.ext_bases()) and not kw:
+            o.fields["args"] = tuple(args)       # also for no arguments: str(E()) is the empty string
+            return o
         if args or kw:
-            ext = cls.ext_bases()
-            if any("Exception" in e or "Error" in e for e in ext):
-                o.fields["args"] = tuple(args)
-                return o
             raise PyRaise("TypeError", None)
         return o
 
@@ -2573,7 +2581,7 @@ class Interp:
         if COVERAGE is not None:
             COVERAGE.add((f.mod.name, getattr(node, "name", "<lambda>"), node.lineno))
         a = node.args
-        env = {"__parent__": f.closure}
+        env = {"__parent__": f.closure, "__fnnode__": node}
         if f.owner is not None and f.self_obj is not None:
             env["__owner__"] = f.owner
             env["__self__"] = f.self_obj
